@@ -121,9 +121,27 @@ class Family:
             return f"{d['name']} = TypeVar({', '.join(args)})\n"
         if k == "dc":
             return self._render_dc(d, value_maker)
+        if k == "stype":
+            return self._render_stype(d)
         if k == "raw":
             return d["src"]
         raise ValueError(k)
+
+    def _render_stype(self, d):
+        """a user type implementing the SerializableType protocol: plain (the methods speak basic data) or
+        use_annotations=True (the methods are annotated with a wire TYPE the library converts)."""
+        n = d["name"]
+        common = (f"    def __init__(self, a, b):\n        self.a, self.b = a, b\n"
+                  f"    def __eq__(self, o):\n        return type(o) is type(self) and (self.a, self.b) == (o.a, o.b)\n"
+                  f"    def __hash__(self):\n        return hash((self.a, self.b))\n"
+                  f"    def __repr__(self):\n        return '{n}(%r, %r)' % (self.a, self.b)\n")
+        if d["flavour"] == "plain":
+            return (f"class {n}(SerializableType):\n" + common +
+                    "    def _serialize(self):\n        return [self.a, self.b]\n"
+                    "    @classmethod\n    def _deserialize(cls, value):\n        a, b = value\n        return cls(int(a), str(b))\n")
+        return (f"class {n}(SerializableType, use_annotations=True):\n" + common +
+                "    def _serialize(self) -> Tuple[datetime.date, int]:\n        return (self.a, self.b)\n"
+                "    @classmethod\n    def _deserialize(cls, value: Tuple[datetime.date, int]):\n        return cls(*value)\n")
 
     def _render_enum(self, d):
         base = d["base"]
